@@ -210,12 +210,38 @@ func runC01Config(cfg c01Config) *c01Result {
 				}
 			}
 		}
+		var preNode map[int]allowSet
+		if cfg.Strategy == "equivocate" {
+			// proposes X to the lowest correct validator and Y to the others, and votes for Y everywhere
+			preNode = map[int]allowSet{}
+			for k, i := range correct {
+				var a allowSet
+				for mi, m := range bag {
+					mm := x.mt.msgs[m]
+					isProp := mm.Kind == "proposal" || mm.Kind == "part"
+					switch {
+					case isProp && k == 0 && mm.Block == "X" && (mm.Kind == "part" || strings.Contains(mm.Desc, "pol=-1")):
+						a.add(mi)
+					case isProp && k != 0 && mm.Block == "Y" && (mm.Kind == "part" || strings.Contains(mm.Desc, "pol=-1")):
+						a.add(mi)
+					case (mm.Kind == "prevote" || mm.Kind == "precommit") && mm.Block == "Y":
+						a.add(mi)
+					}
+				}
+				preNode[i] = a
+			}
+		}
 		var prefix []dAction
 		if cfg.Base == "B3" {
 			prefix = scenarioLateCommit(x).actions()
 		}
 		dr := x.searchDev(devCfg{maxDev: cfg.Dev, maxCrashes: cfg.Crashes, menu: bag, byz: cfg.Byz, stop: stop,
-			maxStates: cfg.MaxStates, reorder: cfg.Reorder, crashInside: cfg.CrashInside, preAllow: pre, prefix: prefix})
+			maxStates: cfg.MaxStates, reorder: cfg.Reorder, crashInside: cfg.CrashInside, preAllow: pre, preAllowNode: preNode, prefix: prefix})
+		res = &gResult{states: dr.states, transitions: dr.transitions, complete: dr.complete, depth: dr.maxDepth,
+			violations: dr.violations, finals: dr.finals, capHit: dr.capHit}
+		execs = dr.executions
+	} else if cfg.Mode == "vis" {
+		dr := x.searchVis(visCfg{maxRound: cfg.R, maxCrashes: cfg.Crashes, byz: cfg.Byz, menu: bag, stop: stop, maxStates: cfg.MaxStates})
 		res = &gResult{states: dr.states, transitions: dr.transitions, complete: dr.complete, depth: dr.maxDepth,
 			violations: dr.violations, finals: dr.finals, capHit: dr.capHit}
 		execs = dr.executions
@@ -322,6 +348,8 @@ func c01Configs(thorough bool) []c01Config {
 		add(name, byz, R, crashes, "dev", dev, false, 0)
 		cs[len(cs)-1].Strategy, cs[len(cs)-1].Base = strategy, base
 	}
+	// directed base schedules B4/B5 with crash insertion before every step (own worker)
+	add("BASE-B4-B5-crash-insertion", 3, 3, 1, "base", 0, false, 0)
 	if !thorough {
 		// deviation-bounded DFS: every execution with <= D deviations from the synchronous scheduler
 		for _, byz := range []int{0, 1, 2, 3} {
@@ -329,10 +357,9 @@ func c01Configs(thorough bool) []c01Config {
 		}
 		add("B-nobyz-R1-crash1-dev1", -1, 1, 1, "dev", 1, true, 0)
 		add("C-byz3-R1-crash1-dev1", 3, 1, 1, "dev", 1, false, 0)
-		add("A-byz3-R2-dev1", 3, 2, 0, "dev", 1, false, 0)
 		addS("S-byz3-own-R2-dev1", 3, 2, 0, 1, "own", "")
 		addS("S-byz3-echo-R2-dev1", 3, 2, 0, 1, "echo", "")
-		addS("S-byz3-nil-R1-dev1", 3, 1, 0, 1, "nil", "")
+		addS("S-byz1-equivocate-R1-dev1", 1, 1, 0, 1, "equivocate", "")
 		addS("B3-byz3-own-R3-dev1", 3, 3, 0, 1, "own", "B3")
 		addS("B3-byz3-silent-R3-crash1-dev1", 3, 3, 1, 1, "", "B3")
 		// exact breadth-first search over ALL interleavings (no default scheduler) to a stated depth
@@ -353,10 +380,16 @@ func c01Configs(thorough bool) []c01Config {
 		addS("B3-byz3-"+st+"-R3-crash1-dev2", 3, 3, 1, 2, st, "B3")
 	}
 	addS("B3-byz3-silent-R3-crash1-dev2", 3, 3, 1, 2, "", "B3")
+	addS("S-byz1-equivocate-R1-dev2", 1, 1, 0, 2, "equivocate", "")
+	addS("S-byz1-equivocate-R2-crash1-dev2", 1, 2, 1, 2, "equivocate", "")
+	addS("S-byz3-equivocate-R2-dev2", 3, 2, 0, 2, "equivocate", "")
 	add("A-byz3-R1-dev1-reorder", 3, 1, 0, "dev", 1, true, 0)
 	add("B-nobyz-R2-crash2-dev2", -1, 2, 2, "dev", 2, false, 0)
 	add("B-nobyz-R1-crash1-dev3", -1, 1, 1, "dev", 3, false, 0)
 	add("A-byz3-R1-dev3", 3, 1, 0, "dev", 3, false, 0)
+	add("V-byz3-R0-vis", 3, 0, 0, "vis", 0, false, 0)
+	add("V-byz1-R0-vis", 1, 0, 0, "vis", 0, false, 0)
+	add("V-byz3-R2-vis-capped", 3, 2, 1, "vis", 0, false, 0)
 	add("A-byz3-R0-bfs7", 3, 0, 0, "bfs", 0, false, 7)
 	add("B-nobyz-R0-crash1-bfs7", -1, 0, 1, "bfs", 0, false, 7)
 	return cs
@@ -373,7 +406,12 @@ func TestVerifC01Worker(t *testing.T) {
 	if err := json.Unmarshal([]byte(spec), &cfg); err != nil {
 		t.Fatal(err)
 	}
-	res := runC01Config(cfg)
+	var res *c01Result
+	if cfg.Mode == "base" {
+		res = runBaseWorker(cfg)
+	} else {
+		res = runC01Config(cfg)
+	}
 	b, _ := json.Marshal(res)
 	if err := os.WriteFile(os.Getenv("VERIF_C01_OUT"), b, 0o644); err != nil {
 		t.Fatal(err)
@@ -413,7 +451,6 @@ func TestVerifC01(t *testing.T) {
 		r.Finish(false)
 		return
 	}
-	runBaseSchedules(r)
 	cfgs := c01Configs(r.Thorough())
 	exe, err := os.Executable()
 	if err != nil {
@@ -643,7 +680,106 @@ func scenarioRelockAmnesia(withCrash bool, crashAt, crashNode int) (*scenario, *
 	return sc, x
 }
 
+// scenarioStalePolka (base schedule B5): V3 Byzantine. Round 0: every correct validator
+// prevotes B1 but nobody is shown the polka (it stays hidden in the network); all
+// precommit nil. Round 1: V0 and V1 see a polka for B2, lock B2@1 and precommit; V1
+// finalizes B2 with V3's precommit; V0 and V2 time out into round 2. Round 2: the
+// Byzantine proposer re-proposes B1 with POL round 0 and releases the genuine, delayed
+// round-0 prevotes. A validator locked in round 1 must not be unlocked by that older
+// polka; anything other than B2 finalized by V0 or V2 is a safety violation.
+func scenarioStalePolka(crashAt, crashNode int) (*scenario, *explorer) {
+	env := newCSEnv(4)
+	correct := []int{0, 1, 2}
+	x := newExplorer(env, correct, 3)
+	for _, p := range correct {
+		x.mt.nameBlock(x.honestBlock(p).ID(), fmt.Sprintf("B%d", p))
+		x.mt.namePS(x.honestBlock(p).partSet().ID().Hash, fmt.Sprintf("B%d", p))
+	}
+	x.byzMenu(3, 3)
+	sc := newScenario(x, 3, crashAt, crashNode)
+	pv := func(to, signer int, r int32, blk string) { sc.send(to, msgPred{"prevote", signer, r, blk}) }
+	pc := func(to, signer int, r int32, blk string) { sc.send(to, msgPred{"precommit", signer, r, blk}) }
+	// round 0: hidden polka for B1
+	sc.pump(1)
+	for _, to := range []int{0, 2} {
+		sc.send(to, msgPred{"proposal", 1, 0, "B1"})
+		sc.send(to, msgPred{"part", -2, 0, "B1"})
+	}
+	sc.send(1, msgPred{"part", -2, 0, "B1"})
+	pv(0, 1, 0, "B1")
+	pv(0, 3, 0, "nil")
+	pv(1, 2, 0, "B1")
+	pv(1, 3, 0, "nil")
+	pv(2, 0, 0, "B1")
+	pv(2, 3, 0, "nil")
+	for _, i := range []int{0, 1, 2} {
+		sc.timeout(i)
+	}
+	for _, to := range []int{0, 1, 2} {
+		for _, s := range []int{0, 1, 2} {
+			pc(to, s, 0, "nil")
+		}
+	}
+	// round 1: V2 proposes B2; V0 and V1 see the polka and lock B2@1, V2 does not
+	sc.pump(2)
+	for _, to := range []int{0, 1} {
+		sc.send(to, msgPred{"proposal", 2, 1, "B2"})
+		sc.send(to, msgPred{"part", -2, 0, "B2"})
+	}
+	sc.send(2, msgPred{"part", -2, 0, "B2"})
+	pv(0, 1, 1, "B2")
+	pv(0, 2, 1, "B2")
+	pv(1, 0, 1, "B2")
+	pv(1, 2, 1, "B2")
+	pv(2, 0, 1, "B2")
+	pv(2, 3, 1, "nil")
+	sc.timeout(2)
+	pc(1, 0, 1, "B2")
+	pc(1, 3, 1, "B2") // V1 finalizes B2
+	pc(0, 2, 1, "nil")
+	pc(0, 3, 1, "nil")
+	sc.timeout(0)
+	pc(2, 0, 1, "B2")
+	pc(2, 3, 1, "nil")
+	sc.timeout(2)
+	// round 2: Byzantine proposer re-proposes B1 with POL round 0 and releases the hidden polka
+	for _, to := range []int{0, 2} {
+		for _, s := range []int{0, 1, 2, 3} {
+			pv(to, s, 0, "B1")
+		}
+		sc.send(to, msgPred{"part", -2, 0, "B1"})
+		sc.send(to, msgPred{"proposal", 3, 2, "B1"})
+		sc.timeout(to)
+	}
+	for _, blk := range []string{"B1", "B2"} {
+		pv(0, 2, 2, blk)
+		pv(2, 0, 2, blk)
+	}
+	pv(0, 3, 2, "B1")
+	pv(2, 3, 2, "B1")
+	for _, i := range []int{0, 2} {
+		sc.timeout(i)
+	}
+	for _, blk := range []string{"B1", "B2", "nil"} {
+		pc(0, 2, 2, blk)
+		pc(2, 0, 2, blk)
+	}
+	pc(0, 3, 2, "B1")
+	pc(2, 3, 2, "B1")
+	return sc, x
+}
+
 func TestVerifC01Scenario(t *testing.T) {
+	{
+		sc, _ := scenarioStalePolka(0, 0)
+		fins, distinct := sc.result()
+		fmt.Printf("=== stale polka scenario: finalized=%v distinct=%d steps=%d\n", fins, distinct, sc.stepNo)
+		if os.Getenv("VERIF_DEBUG") != "" {
+			for _, l := range sc.log {
+				fmt.Println("  ", l)
+			}
+		}
+	}
 	for _, crash := range []bool{false, true} {
 		sc, _ := scenarioRelockAmnesia(crash, 0, 0)
 		fins, distinct := sc.result()
@@ -656,64 +792,96 @@ func TestVerifC01Scenario(t *testing.T) {
 	}
 }
 
-// runBaseSchedules executes the directed base schedules on real engines: B4 as
-// designed (crash of V0 after its re-lock), B4 without crash, and B4 with one
-// crash+restart of each correct node inserted before each of its steps.
-func runBaseSchedules(r *ev.Run) {
+// runBaseWorker executes the directed base schedules on real engines: B4 (re-lock, crash,
+// amnesia) and B5 (stale polka) as designed, and each of them with one crash+restart of
+// each correct node inserted before each of its steps. It reports in the same form as a
+// search configuration (one "state" per scenario run).
+func runBaseWorker(cfg c01Config) *c01Result {
+	t0 := time.Now()
+	deadline := t0.Add(time.Duration(cfg.BudgetS) * time.Second)
+	out := &c01Result{Config: cfg, Finals: map[string]int{}, Complete: true}
 	type variant struct {
-		name              string
-		withCrash         bool
+		name               string
+		withCrash          bool
 		crashAt, crashNode int
 	}
 	base, _ := scenarioRelockAmnesia(false, 0, 0)
-	steps := base.stepNo
-	vs := []variant{{"B4-relock-nocrash", false, 0, 0}, {"B4-relock-crashV0-after-relock", true, 0, 0}}
+	vs := []variant{{"B4-relock-nocrash", false, 0, 0}, {"B4-relock-crashV0-after-relock", true, 0, 0}, {"B5-stalepolka-nocrash", false, 0, 0}}
+	base5, _ := scenarioStalePolka(0, 0)
 	for node := 0; node < 3; node++ {
-		for at := 1; at <= steps; at++ {
+		for at := 1; at <= base.stepNo; at++ {
 			vs = append(vs, variant{fmt.Sprintf("B4-relock-crashV%d-before-step%d", node, at), false, at, node})
 		}
-	}
-	outcomes := map[string]int{}
-	for _, v := range vs {
-		if r.Expired() {
-			return
+		for at := 1; at <= base5.stepNo; at++ {
+			vs = append(vs, variant{fmt.Sprintf("B5-stalepolka-crashV%d-before-step%d", node, at), false, at, node})
 		}
-		sc, _ := scenarioRelockAmnesia(v.withCrash, v.crashAt, v.crashNode)
-		r.Eval(len(sc.trace))
-		r.Traces(1)
-		r.Add("base_schedule_runs", 1)
+	}
+	seenSig := map[string]bool{}
+	for _, v := range vs {
+		if time.Now().After(deadline) {
+			out.Complete, out.CapHit = false, "wall-clock budget"
+			break
+		}
+		var sc *scenario
+		if strings.HasPrefix(v.name, "B5") {
+			sc, _ = scenarioStalePolka(v.crashAt, v.crashNode)
+		} else {
+			sc, _ = scenarioRelockAmnesia(v.withCrash, v.crashAt, v.crashNode)
+		}
+		out.States++
+		out.Transitions += len(sc.trace)
+		out.EngineSteps += len(sc.trace)
+		out.Rebuilds++
+		out.Executions++
 		fins, _ := sc.result()
-		key := ""
+		key := v.name[:2] + ":"
 		for _, i := range []int{0, 1, 2} {
 			if f, ok := fins[i]; ok {
 				key += fmt.Sprintf("V%d=%s ", i, sc.x.mt.blockName(unhex(f)))
 			}
 		}
-		outcomes[key]++
-		r.Nontrivial("base/" + v.name + "/" + key)
+		out.Finals[key]++
+		for i, n := range sc.nodes {
+			if n.restarts > 0 {
+				out.RestartStates++
+				if n.resigned > 0 {
+					out.ResignedAfterRestart++
+					out.RestartKeys = append(out.RestartKeys, fmt.Sprintf("%s/V%d", v.name, i))
+				}
+			}
+		}
 		sig, detail := sc.verdict()
 		if sig == "" {
+			for i, n := range sc.nodes {
+				if n.equivocated != "" {
+					sig, detail = "equivocation", fmt.Sprintf("correct validator V%d equivocated: %s", i, n.equivocated)
+				} else if n.notDurable != "" {
+					sig, detail = "sent-before-durable", fmt.Sprintf("correct validator V%d: %s", i, n.notDurable)
+				}
+			}
+		}
+		if sig == "" || seenSig[sig+v.name[:2]] {
 			continue
 		}
-		// confirm on fresh engines from the wire-level trace only
+		seenSig[sig+v.name[:2]] = true
 		ok := true
 		for k := 0; k < 5; k++ {
-			f2, p2, c2 := replayTrace(newCSEnv(4), []int{0, 1, 2}, sc.trace, nil)
-			if !violationHolds(sig, f2, p2, c2) {
+			f2, p2, c2, e2 := replayTraceFull(newCSEnv(4), []int{0, 1, 2}, sc.trace, nil)
+			if !violationHoldsFull(sig, f2, p2, c2, e2) {
 				ok = false
 			}
 		}
-		if !ok {
-			fmt.Printf("HARNESS-ERROR property=C01 base schedule %s: violation %s did not reproduce\n", v.name, sig)
-			r.Cap("non-reproducing violation in base schedule " + v.name)
-			continue
+		tr := make([]gEvent, len(sc.trace))
+		copy(tr, sc.trace)
+		for i := range tr {
+			if i < len(sc.log) {
+				_ = i
+			}
 		}
-		var lines []string
-		for _, l := range sc.log {
-			lines = append(lines, l)
-		}
-		r.Violation(sig, detail+"\nbase schedule "+v.name+" (V3 Byzantine)\n"+strings.Join(lines, "\n"),
-			map[string]interface{}{"config": c01Config{Name: v.name, Byz: 3, R: 3}, "trace": sc.trace, "sig": sig})
+		out.Violations = append(out.Violations, gViolation{Sig: sig, Detail: detail + "\nbase schedule " + v.name + " (V3 Byzantine)", Trace: tr})
+		out.Confirmed = append(out.Confirmed, ok)
 	}
-	r.Set("base_schedule_outcomes", outcomes)
+	out.WallS = time.Since(t0).Seconds()
+	return out
 }
+
